@@ -8,6 +8,20 @@ CLAIMED = {
     'C08': ('symbolic execution of the eight real predicate methods on two arbitrary bit-vector extents vs. set-theoretic '
             'spec; intent side on symbolic tables; z3 QF_BV', '5 C08'),
 }
+_GEN = 'symbolic execution of the real generator on fully symbolic tables (paths = behaviours; closure kernels by proven contract), per-path SMT queries incl. fresh-witness completeness; '
+_TAB = 'solver-driven path partition of all tables up to the bound through the real Context/Lattice constructors, per-path comparison with a definitional oracle; z3 QF_BV'
+CLAIMED.update({
+    'C02': ('closure laws as SMT queries on the real merged kernels (symbolic table, x, y); Context.__getitem__ on symbolic tables for every label subset; ' + _TAB, '5 C02'),
+    'C03': (_GEN + _TAB, '5 C03'),
+    'C04': ('real FCbO generators (by intents, by extents) and wrappers: ' + _GEN + _TAB, '5 C04'),
+    'C05': ('real lindig.neighbors merge-interpreted on symbolic table + symbolic closed extent vs. upper-cover spec (one SMT query per shape); generator link lists; ' + _TAB, '5 C05'),
+    'C06': ('symbolic shortlex keys of consecutive generator yields compared by SMT; ' + _TAB, '5 C06'),
+    'C07': ('join/meet lemma: real Concept/Lattice join/meet bodies merge-interpreted on symbolic closed extents vs. closure(union)/intersection; ' + _TAB, '5 C07'),
+    'C09': (_TAB, '5 C09'),
+    'C10': (_TAB, '5 C10'),
+    'C18': (_TAB, '5 C18'),
+    'C20': (_TAB + ' (DOT source parsed and compared with the labelled cover relation)', '5 C20'),
+})
 PENDING = {}
 NA = {
     'C12': 'text formats quantify over label strings, encodings, csv dialects and files: code is str methods, %-formatting, '
